@@ -493,6 +493,19 @@ ARRAY_MENU = {
 }
 
 
+class _IndexLike:
+    """Not an integer, but usable as an index."""
+
+    def __init__(self, v):
+        self.v = int(v)
+
+    def __index__(self):
+        return self.v
+
+    def __repr__(self):
+        return f'_IndexLike({self.v})'
+
+
 def _strictly(v, ov, below):
     """``v`` strictly below (above) ``ov``, from both operands' side and
     with a margin far above conversion rounding."""
@@ -889,6 +902,13 @@ class Machine:
             params[f] = mk_value(kind, toks[f], near=nr)
             if nr:
                 near[f] = True
+            if kind in ('asize', 'angle') and self.mode == 'c16' and \
+                    rng.chance(0.25):
+                # the same value as an Angle (a Quantity subclass; the
+                # docstrings' spelling): equal to the plain Quantity, from
+                # either side
+                from astropy.coordinates import Angle
+                params[f] = Angle(params[f])
         import regions
         extra = {}
         if cls == 'PolygonPixelRegion' and rng.chance(0.3):
@@ -2478,9 +2498,32 @@ class Machine:
             args = [b[0], b[1], c[0], c[1]]
             value = 'valid'
             if invalid:
-                k = rng.pick(['float', 'inverted', 'str', 'none', 'nan'])
+                k = rng.pick(['float', 'inverted', 'str', 'none', 'nan',
+                              'float_integral', 'arr0d_int', 'arr0d_int32',
+                              'arr0d_float', 'arr1d', 'list', 'index_obj',
+                              'inf', 'complex', 'fraction', 'bytes'])
                 j = rng.randrange(4)
-                if k == 'float':
+                other = {
+                    'float_integral': lambda: float(args[j]),
+                    'arr0d_int': lambda: np.array(args[j]),
+                    'arr0d_int32': lambda: np.array(args[j], dtype=np.int32),
+                    'arr0d_float': lambda: np.array(float(args[j])),
+                    'arr1d': lambda: np.array([args[j]]),
+                    'list': lambda: [args[j]],
+                    'index_obj': lambda: _IndexLike(args[j]),
+                    'inf': lambda: float('inf'),
+                    'complex': lambda: complex(args[j], 0),
+                    'fraction': lambda: __import__('fractions').Fraction(
+                        args[j], 1),
+                    'bytes': lambda: b'3'}
+                if k in other:
+                    args[j] = other[k]()
+                    k_done = True
+                else:
+                    k_done = False
+                if k_done:
+                    pass
+                elif k == 'float':
                     args[j] = args[j] + 0.5
                 elif k == 'inverted':
                     pair = rng.pick([0, 2])
